@@ -12,7 +12,7 @@ from prosemirror.transform import Transform, structure
 
 PROPERTY = "C12"
 BOUNDS = ("catalogue documents of the bundled/list/strict/title/iso/table/fixed schemas; positions symbolic in range; "
-          "split depth 1..3; join direction both; every wrapper type, node type and slice of the catalogue")
+          "split depth 1..3, types_after entries drawn from every non-leaf type and None (restricted to types compatible with the node they replace); join direction both; every wrapper type, node type and slice of the catalogue")
 ASSUMPTIONS = ["'succeeds' = no exception and at least one recorded step; positions splitting a surrogate pair excluded"]
 
 P = {}
